@@ -1566,8 +1566,79 @@ fn cross_kind(ctx: &mut Ctx) {
 			crate::probes::reap_decoder(first, &st);
 		}
 	}
-	ctx.traces += 22;
-	ctx.transitions += 20 + 12 * 7 + 26 + 36;
+	// 8. commands to a streaming sound whose decoder has not delivered anything yet (or has run dry) are still consumed by the
+	// next callback
+	for (ci, cname) in ["stop", "pause", "set_volume + stop"].iter().enumerate() {
+		ctx.evals += 1;
+		pacer::set_mode(pacer::Mode::Pacer);
+		let mut m = rig::manager(8, 1, rig::caps(2), MainTrackBuilder::new());
+		let first = pacer::count();
+		let frames: Vec<Frame> = (0..16).map(|i| Frame::new(noise(i), noise(i + 5))).collect();
+		let (dec, st) = ScriptedDecoder::new(frames, 8, vec![3, 1, 2], 2);
+		let mut h = m.play(StreamingSoundData::from_decoder(dec).loop_region(Region::from(..))).map_err(|_| ()).unwrap();
+		// no decoder step at all: the ring is empty
+		match ci {
+			0 => h.stop(instant()),
+			1 => h.pause(instant()),
+			_ => {
+				h.set_volume(-6.0, instant());
+				h.stop(instant());
+			}
+		}
+		rig::callback(&mut m, &mut buf, 1, 2);
+		rig::callback(&mut m, &mut buf, 1, 2);
+		let st_now = format!("{:?}", h.state());
+		let want = if ci == 1 { "Paused" } else { "Stopped" };
+		if st_now != want {
+			ctx.fail(
+				"a command to a streaming sound that is waiting for its decoder is not consumed by the next callback :: cross-kind",
+				format!("{}(instant) before the first callback, decoder never stepped: state {} after two callbacks, expected {}", cname, st_now, want),
+			);
+		}
+		ctx.nontrivial(hash64(&("starved command", ci)));
+		h.stop(instant());
+		rig::callback(&mut m, &mut buf, 1, 2);
+		drop(m);
+		crate::probes::reap_decoder(first, &st);
+	}
+	// 9. clearing the loop region of a streaming sound (a command the decoder thread consumes): the sound then plays to its end
+	{
+		ctx.evals += 1;
+		pacer::set_mode(pacer::Mode::Pacer);
+		let mut m = rig::manager(8, 1, rig::caps(2), MainTrackBuilder::new());
+		let first = pacer::count();
+		let frames: Vec<Frame> = (0..16).map(|i| Frame::new(noise(i), noise(i + 5))).collect();
+		let (dec, st) = ScriptedDecoder::new(frames, 8, vec![3, 1, 2], 2);
+		let mut h = m.play(StreamingSoundData::from_decoder(dec).loop_region(region(2, 6))).map_err(|_| ()).unwrap();
+		for _ in 0..6 {
+			pacer::step_all_from(first, 2);
+			rig::callback(&mut m, &mut buf, 1, 2);
+		}
+		h.set_loop_region(region(1, 5));
+		h.set_loop_region(None);
+		let mut stopped_after = None;
+		for k in 0..80 {
+			pacer::step_all_from(first, 2);
+			rig::callback(&mut m, &mut buf, 1, 2);
+			if h.state() == kira::sound::PlaybackState::Stopped {
+				stopped_after = Some(k);
+				break;
+			}
+		}
+		if stopped_after.is_none() {
+			ctx.fail(
+				"set_loop_region(None) on a looping streaming sound is lost (the sound keeps looping) :: cross-kind",
+				format!("16-frame stream looping 2..6; set_loop_region(1..5); set_loop_region(None) in one interval; still {:?} at position {} after 80 more frames", h.state(), h.position()),
+			);
+		}
+		ctx.nontrivial(hash64(&"clear loop"));
+		h.stop(instant());
+		rig::callback(&mut m, &mut buf, 1, 2);
+		drop(m);
+		crate::probes::reap_decoder(first, &st);
+	}
+	ctx.traces += 26;
+	ctx.transitions += 20 + 12 * 7 + 26 + 36 + 100;
 	ctx.state(hash64(&"cross"));
 	ctx.outcome(hash64(&"cross"));
 }
